@@ -26,10 +26,13 @@ type Case struct {
 	// updated once before the threads start (a scope's metric tables grow; handles handed out
 	// earlier must stay the ones the report pass looks at)
 	Filler int `json:"filler,omitempty"`
+	// Caps: what the recording reporter says about itself (rec.CapsOf): advisory only
+	Caps int `json:"caps,omitempty"`
 }
 
 func gen(t *rapid.T) Case {
 	c := Case{Cached: rapid.Bool().Draw(t, "cached")}
+	c.Caps = rapid.SampledFrom([]int{0, 0, 0, 1, 2, 3}).Draw(t, "caps")
 	if rapid.IntRange(0, 7).Draw(t, "filler?") == 0 {
 		c.Filler = rapid.IntRange(14, 70).Draw(t, "filler")
 	}
@@ -61,9 +64,9 @@ func run(c Case) (pbt.Outcome, error) {
 	log := &rec.Log{}
 	opts := tally.ScopeOptions{OmitCardinalityMetrics: true}
 	if c.Cached {
-		opts.CachedReporter = &rec.Cached{L: log}
+		opts.CachedReporter = &rec.Cached{L: log, Caps: rec.CapsOf(c.Caps)}
 	} else {
-		opts.Reporter = &rec.Stats{L: log}
+		opts.Reporter = &rec.Stats{L: log, Caps: rec.CapsOf(c.Caps)}
 	}
 	root, _ := tally.VerifNewRootScope(opts, 0, 1)
 	gauges := make([]tally.Gauge, len(c.Updates))
